@@ -126,6 +126,12 @@ def main(tier):
         jobs.append(dict(stack="comp+enc", L=l, seed=seed() + 90 + i, offset=105, nops=40))
     for i, l in enumerate([0, 1, 4096, CH]):
         jobs.append(dict(stack="raw", L=l, seed=seed() + 130 + i, offset=7 * i, nops=40))
+    # ACCESS PATTERNS rather than positions: a skip-scan (small reads separated by small relative forward seeks, what
+    # extracting every other small file does) over streams of two blocks and more, text and random contents
+    for i, (st, ent, mh) in enumerate([("comp+enc", "text", 4096), ("comp", "text", 4096), ("comp+enc", "high", 4096),
+                                       ("comp+enc", "text", 300), ("enc", "high", 4096), ("raw", "high", 4096)]):
+        jobs.append(dict(stack=st, L=(2 * BL + 300001) if "comp" in st else 5 * CH + 77, seed=seed() + 170 + i, offset=(i % 2) * 105,
+                         nops=0, pattern="hops", maxhop=mh, entropy=ent))
     wd = workdir("c11-prod")
     jp = os.path.join(wd, "jobs.jsonl")
     shards = [jobs[i::6] for i in range(6)]
